@@ -38,7 +38,9 @@ Inductive acall :=
 | Enter                              (* with t: ...   (only issued when not inside) *)
 | ExitNormal | ExitExn               (* leaving the with block, normally or by an exception *)
 | Mutator (k : mkind) (valid : bool) (* valid: the request itself is acceptable (C07 covers the rest) *)
-| Reader (r : rkind).
+| Reader (r : rkind)
+| CopySwitch.                        (* t = t.copy(path): the client goes on with the object copy() returned, a fresh
+                                        Tdf for the new file (the file's content is the same, byte for byte) *)
 
 Definition amode_eqb (a b : amode) : bool :=
   match a, b with RB, RB | RWB, RWB => true | _, _ => false end.
@@ -80,6 +82,7 @@ Definition a_step (s : astate) (c : acall) : bool * astate :=
       | HNone => (false, s)
       | _ => if x_inside s then (false, s) else (false, do_exit (do_enter s))
       end
+  | CopySwitch => (false, mkAS RB false HNone (x_disk s) false false)
   end.
 
 Definition a_run (s : astate) (cs : list acall) : astate :=
